@@ -8,6 +8,7 @@ import vlib
 from vlib import gZ, gQ, gN
 from props import c01_gen as G
 from props import c01_gen2 as G2
+from props import c01_gen3 as G3
 
 F = fractions.Fraction
 PID = 'C01'
@@ -92,11 +93,22 @@ def gen_cases(rng, tier, ctx):
     # (one template object in several places, create_program called before with other values), dropped-longest-channel /
     # declared-as-empty families
     cases.extend(G2.gen_round3(rng, tier))
+    # round 4: the decimal stream (durations / sample rates off the dyadic grid; compared under a declared tolerance)
+    cases.extend(G3.gen_dec_cases(rng, tier))
     # ... and the two input-independent variations applied to a part of the generic stream
     for c in rng.sample(base, 40 if tier == 'quick' else 800):
         c2 = G2.with_t_name(rng, c)
         if c2 is not None:
             cases.append(c2)
+    # round 4 (coverage audit): the same trees with pure constants handed over as Python numbers instead of strings, and
+    # with the parameters given as a Scope object
+    for j, c in enumerate(rng.sample(base, 36 if tier == 'quick' else 700)):
+        c2 = dict(c)
+        c2['numobj' if j % 3 else 'as_scope'] = True
+        if j % 6 == 1:
+            c2['as_scope'] = True
+        cases.append(c2)
+    cases.extend(G3.gen_edge_cases(rng))
     for c in rng.sample(base, 30 if tier == 'quick' else 600):
         c2 = dict(c)
         c2['warm'] = {k: str(F(v) + rng.choice([F(1), F(-1), F(1, 2)])) for k, v in c['params'].items()}
@@ -119,7 +131,48 @@ def expr_str(e):
         return '(%s)' % s if v < 0 else s
     if k == 'v':
         return e[1]
+    if k == 'q':                      # decimal stream: literal with an exact rational value, written in a given form
+        v = F(e[1])
+        return repr(float(v)) if e[2] in ('float', 'dec_str') else '(%d/%d)' % (v.numerator, v.denominator)
     return '(%s %s %s)' % (expr_str(e[1]), k, expr_str(e[2]))
+
+
+def _form(v, form):
+    """the Python object a decimal-stream number is handed over as"""
+    v = F(v)
+    if form == 'float':
+        return float(v)
+    if form == 'int':
+        return int(v)
+    if form == 'dec_str':
+        return repr(float(v))
+    if form == 'frac_str':
+        return '%d/%d' % (v.numerator, v.denominator)
+    if form == 'fraction':
+        return v
+    if form == 'time':
+        from qupulse.utils.types import TimeType
+        return TimeType.from_fraction(v.numerator, v.denominator)
+    raise ValueError(form)
+
+
+def expr_obj(e):
+    """a TIME position (ConstantPT / FunctionPT duration, table / point entry time): a literal of the decimal stream is
+    handed over as the object its form says (float, Fraction, TimeType, string); everything else as expression string"""
+    if e[0] == 'q':
+        return _form(e[1], e[2])
+    return expr_str(e)
+
+
+_NUMOBJ = [False]     # set per case by run_impl: pure constants are handed over as Python numbers instead of strings
+
+
+def expr_val(e):
+    """a VALUE position: with the case flag `numobj` a pure constant becomes a Python int / float (the templates keep such
+    numbers as they are instead of wrapping them into expressions)"""
+    if _NUMOBJ[0] and e[0] == 'c':
+        return _num(e[1])
+    return expr_str(e)
 
 
 def build(n, memo=None):
@@ -137,38 +190,38 @@ def _build(n, build):
                                 FunctionPT)
     k = n['k']
     if k == 'const':
-        return ConstantPT(expr_str(n['d']), {ch: expr_str(e) for ch, e in n['amps']})
+        return ConstantPT(expr_val(n['d']) if _NUMOBJ[0] else expr_obj(n['d']), {ch: expr_val(e) for ch, e in n['amps']})
     if k == 'table':
-        return TablePT({ch: [(expr_str(t), expr_str(v), i) for t, v, i in es] for ch, es in n['chs']},
+        return TablePT({ch: [(expr_val(t) if _NUMOBJ[0] else expr_obj(t), expr_val(v), i) for t, v, i in es] for ch, es in n['chs']},
                        consistency_check=False)
     if k == 'point':
         ents = []
         for t, vs, i in n['entries']:
-            v = expr_str(vs[0]) if len(vs) == 1 else [expr_str(x) for x in vs]
-            ents.append((expr_str(t), v, i))
+            v = expr_val(vs[0]) if len(vs) == 1 else [expr_val(x) for x in vs]
+            ents.append((expr_obj(t), v, i))
         return PointPT(ents, list(n['chs']))
     if k == 'multi':
         return AtomicMultiChannelPT(*[build(x) for x in n['subs']])
     if k == 'aarith':
         return ArithmeticAtomicPT(build(n['l']), n['op'], build(n['r']))
     if k == 'func':
-        return FunctionPT('(%s) + (%s)*t' % (expr_str(n['a']), expr_str(n['b'])), expr_str(n['d']), channel=n['ch'])
+        return FunctionPT('(%s) + (%s)*t' % (expr_str(n['a']), expr_str(n['b'])), expr_obj(n['d']), channel=n['ch'])
     if k == 'seq':
         return SequencePT(*[build(x) for x in n['subs']])
     if k == 'rep':
-        return RepetitionPT(build(n['body']), expr_str(n['n']))
+        return RepetitionPT(build(n['body']), expr_val(n['n']))
     if k == 'for':
-        return ForLoopPT(build(n['body']), n['idx'], tuple(expr_str(e) for e in n['range']))
+        return ForLoopPT(build(n['body']), n['idx'], tuple(expr_val(e) for e in n['range']))
     if k == 'map':
         return MappingPT(build(n['body']), parameter_mapping={a: expr_str(b) for a, b in n['pm']},
                          channel_mapping={a: b for a, b in n['chm']}, allow_partial_parameter_mapping=True)
     if k == 'rev':
         return TimeReversalPT(build(n['body']))
     if k == 'par':
-        return ParallelChannelPT(build(n['body']), {ch: expr_str(e) for ch, e in n['ow']})
+        return ParallelChannelPT(build(n['body']), {ch: expr_val(e) for ch, e in n['ow']})
     if k == 'arith':
         sc = n['scalar']
-        scalar = {ch: expr_str(e) for ch, e in sc['map']} if isinstance(sc, dict) else expr_str(sc)
+        scalar = {ch: expr_val(e) for ch, e in sc['map']} if isinstance(sc, dict) else expr_val(sc)
         body = build(n['body'])
         return ArithmeticPT(body, n['op'], scalar) if n['lhs'] else ArithmeticPT(scalar, n['op'], body)
     raise ValueError(k)
@@ -209,17 +262,22 @@ def run_impl(case):
     from qupulse.pulses.repetition_pulse_template import ParameterNotIntegerException
     with warnings.catch_warnings():
         warnings.simplefilter('ignore')
+        _NUMOBJ[0] = bool(case.get('numobj'))
         try:
             with vlib.time_limit(20):
-                pt = build(case['pt'])
+                pt = build(case['pt'], {('numobj', bool(case.get('numobj'))): None})
         except vlib.Timeout:
             return {'hang': True}
         except Exception as e:
             return {'crash': 'construction failed: %s: %s' % (type(e).__name__, str(e)[:200])}
-        params = {k: _num(v) for k, v in case['params'].items()}
+        ptypes = case.get('ptypes', {})
+        params = {k: (_form(v, ptypes[k]) if k in ptypes else _num(v)) for k, v in case['params'].items()}
         cm = {a: b for a, b in case['cm']}
         if case.get('top_none'):           # "not given" instead of "given as empty"
             params, cm = (params or None), (cm or None)
+        if case.get('as_scope'):           # the parameters arrive as a Scope object instead of a dict
+            from qupulse.parameter_scope import DictScope
+            params = DictScope.from_kwargs(**(params or {}))
         if 'warm' in case:                 # the same template object is instantiated (and sampled) with other values first
             try:
                 with vlib.time_limit(30):
@@ -252,7 +310,9 @@ def run_impl(case):
             with vlib.time_limit(30):
                 w = to_waveform(prog)
                 dur = vlib.to_fraction(w.duration)
-                ts = grid_for(dur)
+                # decimal stream: the grid comes with the case (exact junctions + interior points); the code is asked for
+                # the correctly rounded doubles of these rationals
+                ts = [F(t) for t in case['grid']] if 'grid' in case else grid_for(dur)
                 arr = np.array([float(t) for t in ts])
                 samples = []
                 chans = sorted(w.defined_channels, key=lambda c: (isinstance(c, str), c))
@@ -261,6 +321,11 @@ def run_impl(case):
                 decoy = arr * 0.5
                 for ch in chans:
                     w.get_sampled(ch, decoy)
+                for ch in chans[:1]:                 # an empty grid is a grid: empty answer, also into an empty output array
+                    e0 = w.get_sampled(ch, np.array([], dtype=float))
+                    e1 = w.get_sampled(ch, np.array([], dtype=float), output_array=np.array([], dtype=float))
+                    if len(e0) != 0 or len(e1) != 0:
+                        return {'crash': 'sampling on the empty grid returned %d / %d values' % (len(e0), len(e1))}
                 arr_before = arr.copy()
                 first = {}
                 for ch in chans:
@@ -288,7 +353,10 @@ def run_impl(case):
                        'samples': samples}
                 if resample:
                     out['resample_mismatch'] = resample
-                out.update(_render_obs(prog, w, chans, dur, set(ts)))
+                if case.get('dec'):
+                    out.update(_render_obs_dec(prog, w, chans, dur, case))
+                else:
+                    out.update(_render_obs(prog, w, chans, dur, set(ts)))
                 return out
         except vlib.Timeout:
             return {'hang': True}
@@ -328,6 +396,51 @@ def _render_obs(prog, w, chans, dur, grid):
     return out
 
 
+def _render_obs_dec(prog, w, chans, dur, case):
+    """decimal stream: plotting.render with the case's sample rates (10, 3, 12, 2.4 ... handed over as int / float / Fraction /
+    TimeType).  render's time axis is np.linspace(0, duration, n): point k is MEANT to be k / rate.  Where it is the
+    correctly rounded double of k / rate the exact rational goes to Coq (a junction stays a junction); where linspace
+    rounded differently, the double itself (exactly, as a rational) goes to Coq: it is then at least one ulp away from
+    float(junction), hence on the same side of the exact junction."""
+    import numpy as np
+    from qupulse.plotting import render
+    out = {'render': [], 'render_points': 0, 'render_rates': []}
+    for rate, form in case.get('rates', []):
+        times, volt, _ = render(prog, sample_rate=_form(rate, form))
+        times = times[:-1]
+        out['render_points'] += int(len(times))
+        out['render_rates'].append(rate)
+        if set(volt) != set(chans):
+            out['render_mismatch'] = 'render shows channels %r, to_waveform defines %r' % (sorted(map(str, volt)), chans)
+            return out
+        qs, off = [], 0
+        for k, t in enumerate(times):
+            q = F(k) / F(rate)
+            if float(q) == float(t):
+                qs.append(q)
+            else:
+                qs.append(vlib.to_fraction(float(t)))
+                off += 1
+        out['render_off_grid'] = out.get('render_off_grid', 0) + off
+        idx = list(range(len(times)))
+        if len(idx) > 40:
+            lo = (len(idx) // 3)
+            idx = sorted(set(idx[:14] + idx[lo:lo + 14] + idx[-12:]))
+        for ch in chans:
+            ref = w.get_sampled(ch, np.array(times))
+            got = volt[ch][:-1]
+            for t, a, b in zip(qs, got, ref):
+                a, b = float(a), float(b)
+                if not (a == b or (math.isnan(a) and math.isnan(b))) and 'render_mismatch' not in out:
+                    out['render_mismatch'] = 'render(rate %s) gives %r on %r at t=%s, get_sampled gives %r' % (rate, a, ch, t, b)
+            row = []
+            for j in idx:
+                v = float(got[j])
+                row.append([vlib.frac_json(qs[j]), None if math.isnan(v) else ('inf' if math.isinf(v) else vlib.frac_json(v))])
+            out['render'].append([ch, row])
+    return out
+
+
 def py_spec(case, obs):
     """render(program) and to_waveform(program).get_sampled must show the same voltages inside [0, duration); sampling the
     same waveform again (after a decoy grid of equal length, into a caller-provided array) gives the same voltages"""
@@ -360,6 +473,10 @@ def g_expr(e, nm):
         return '(EC %s)' % gQ(F(e[1]))
     if k == 'v':
         return '(EV %s)' % nm.p(e[1])
+    if k == 'q':
+        return '(EC %s)' % gQ(F(e[1]))
+    if k == '/':
+        return '(EMul %s (EC %s))' % (g_expr(e[1], nm), gQ(1 / F(e[2][1])))
     return '(%s %s %s)' % ({'+': 'EAdd', '-': 'ESub', '*': 'EMul'}[k], g_expr(e[1], nm), g_expr(e[2], nm))
 
 
@@ -445,7 +562,25 @@ def to_coq(case, obs):
             g_list('(%s, %s)' % (nm.c(ch), g_list('(%s, %s)' % (gQ(F(t)), 'None' if v is None else '(Some %s)' % gQ(F(v)))
                                                   for t, v in row))
                    for ch, row in obs['samples'] + [r for r in obs.get('render', []) if r[1]]))
-    return '(%s %s %s %s %s)' % ('CCaseM' if case.get('side') == 'corr' else 'CCase', p, env, cm, o)
+    if case.get('dec') and 'samples' in obs:
+        _STATS['inexact_cases'] += 1
+        _STATS['inexact_samples'] += sum(len(r) for _, r in obs['samples'] + obs.get('render', []))
+    return '(%s %s %s %s %s)' % ('CDec' if case.get('dec') else 'CCaseM' if case.get('side') == 'corr' else 'CCase',
+                                 p, env, cm, o)
+
+
+_STATS = {'inexact_cases': 0, 'inexact_samples': 0}
+
+
+def extra_evidence(ctx):
+    return {'inexact_cases': _STATS['inexact_cases'], 'inexact_samples_compared': _STATS['inexact_samples'],
+            'inexact_tolerance_abs': '2^-30',
+            'inexact_note': 'decimal stream (family dec, Coq constructor CDec): durations k/10, k/5, k/20, k/100, k/3, k/12, k/6, '
+                            'k/7 as float / decimal string / fraction string / Fraction / TimeType; grid points on every junction '
+                            '(correctly rounded doubles of the exact rationals) and render at decimal sample rates; channel set, '
+                            'duration and the piece that answers a junction are compared exactly, the binary64 sample values '
+                            'with the exact rational model and denotation under the absolute tolerance; every other case is '
+                            'compared exactly'}
 
 
 # ---------------------------------------------------------------------------------------------------------------------
@@ -487,10 +622,19 @@ def histogram_keys(case, obs):
     if 'rebind' in case:
         r, i, o = case['rebind'].split('/')
         keys += ['rebind-expr:' + r, 'rebind-below:' + i, 'rebind-pos:' + o]
-    for tag in ('selfmap', 'alias', 'dropped', 'tname_shape', 'multizero'):
+    if case.get('dec'):
+        keys.append('dec-den:%s' % case['den'])
+        keys.append('dec-kind:' + case['dec_kind'])
+        for f in sorted(set(case.get('ptypes', {}).values())):
+            keys.append('dec-param-form:' + f)
+        for r, f in case.get('rates', []):
+            keys.append('dec-rate:%s' % r)
+        if obs.get('render_off_grid'):
+            keys.append('dec-render-linspace-off-by-ulp')
+    for tag in ('selfmap', 'alias', 'dropped', 'tname_shape', 'multizero', 'dec_form'):
         if tag in case:
             keys.append('%s:%s' % (tag, case[tag]))
-    for tag in ('tname', 'warm', 'top_none', 'idx_rebound', 'multi_zero'):
+    for tag in ('tname', 'warm', 'top_none', 'idx_rebound', 'multi_zero', 'dec_inner', 'numobj', 'as_scope', 'edge'):
         if case.get(tag):
             keys.append(tag)
     return keys
@@ -512,6 +656,8 @@ def classify(case, obs):
         return 'par-under-transformation'
     if 'samples' in obs and case.get('final_triple'):
         return 'table-final-triple'       # in range only under time reversal; the sample at t = duration always differs
+    if case.get('dec_inner') and 'samples' in obs:
+        return 'decimal-table-inner-entry'   # flag set by the generator family (3-entry table at a non-zero decimal offset)
     if case.get('multi_zero') and ('samples' in obs or 'unplayable' in obs):
         return 'multi-zero-duration-part'  # flag set by the generator family (a part of duration <= 0 with a kept channel)
     return None
@@ -547,9 +693,11 @@ def _as_case(pt, like, keep_cm=False):
     defined = G.pt_channels(pt)
     cm = [[a, b] for a, b in like['cm'] if a in defined] if keep_cm else []
     c = {'pt': pt, 'params': params, 'cm': cm}
-    for k in ('final_triple', 'multi_zero'):
+    for k in ('final_triple', 'multi_zero', 'dec_inner'):
         if like.get(k):
             c[k] = like[k]
+    if like.get('dec'):                 # a decimal-stream case stays one: forms, tolerance constructor, junction grid
+        c = G3.regrid(c, like)
     return c
 
 
@@ -650,7 +798,7 @@ def search_failing(ctx, broken):
                 hold = {'k': 'const', 'd': G.C(1), 'amps': [[ch, G.C('1/2')] for ch in chans]}
                 cands.append(_as_case({'k': 'seq', 'subs': [hold, pt, copy.deepcopy(hold)]}, near, keep_cm=True))
         for name in sorted(near['params']):
-            for val in ('0', '1', '2', '1/2', '-1', '3'):
+            for val in (('0', '1', '2', '1/2', '-1', '3') if not near.get('dec') else ('1/10', '3/10', '1/5', '1/3', '7/10')):
                 if near['params'][name] != val:
                     c = copy.deepcopy(near)
                     c['params'][name] = val
@@ -659,7 +807,7 @@ def search_failing(ctx, broken):
         if any(k in G.ATOMS for k in kinds):
             for _ in range(60):
                 cands.append(G.gen_case(rng, max_depth=4, kinds=kinds))
-    fam = {'rebind': G2.gen_rebind_case, 'selfmap': G2.gen_selfmap_case, 'tname': G2.gen_tname_case,
+    fam = {'dec': G3.gen_dec_case, 'rebind': G2.gen_rebind_case, 'selfmap': G2.gen_selfmap_case, 'tname': G2.gen_tname_case,
            'alias': G2.gen_alias_case, 'dropped': G2.gen_dropped_case, 'multizero': G2.gen_multizero_case}
     if near is not None and near.get('family') in fam:
         for _ in range(60):
@@ -671,7 +819,9 @@ def search_failing(ctx, broken):
     for f in (G2.gen_rebind_case, G2.gen_selfmap_case, G2.gen_alias_case, G2.gen_dropped_case):
         for _ in range(8):
             cands.append(f(rng))
-    cands = cands[:340]
+    for _ in range(20):
+        cands.append(G3.gen_dec_case(rng))
+    cands = cands[:360]
     obs, bad = _spec_failures(cands, ctx, 'search')
     known = vlib.load_known_findings()[0].get(PID, {})
     bad = [i for i in bad if classify(cands[i], obs[i]) not in known]
